@@ -159,12 +159,12 @@ def block(rng: random.Random, depth=0) -> list[str]:
     if r < 0.62 and depth < 3:
         ordered = rng.random() < 0.4
         loose = rng.random() < 0.4
-        start = rng.choice([1, 1, 2, 7, 10, 0])
+        start = rng.choice([1, 1, 2, 7, 10, 0, 9, 98, 999999998])       # digit-count boundaries, and the last numbers a marker can hold
         bullet = rng.choice(["-", "*", "+"])
         delim = "." if "mixed_ordered_delims" in AVOID else rng.choice([".", ")"])
         out = []
         for i in range(rng.randint(1, 4)):
-            marker = f"{start + i}{delim} " if ordered else bullet + " "
+            marker = f"{min(start + i, 999999999)}{delim} " if ordered else bullet + " "
             if rng.random() < 0.15 and not ordered:
                 marker = bullet + " " + rng.choice(["[ ] ", "[x] "])
             inner = []
